@@ -7,6 +7,7 @@
 package main
 
 import (
+	"go/constant"
 	"go/token"
 	"go/types"
 
@@ -35,6 +36,7 @@ type pguard struct {
 type poutcome struct {
 	guards []pguard
 	res    aval
+	all    []aval // every result, for callees that return a tuple (offset, ok)
 	panics bool
 	noRes  bool // returns nothing evaluable
 }
@@ -71,6 +73,9 @@ func (pe *peval) run(fn *ssa.Function, args []aval, depth int) []poutcome {
 			if k, ok := constIntVal(v); ok {
 				return aval{known: true, k: k}
 			}
+			if k, ok := constBoolVal(v); ok {
+				return aval{known: true, k: k}
+			}
 			if a, ok := fr.env[v]; ok {
 				return a
 			}
@@ -104,6 +109,11 @@ func (pe *peval) run(fn *ssa.Function, args []aval, depth int) []poutcome {
 					}
 				}
 			case *ssa.UnOp:
+				if x.Op == token.NOT {
+					if a := val(x.X); a.isConst() {
+						fr.env[x] = aval{known: true, k: 1 - a.k}
+					}
+				}
 				// a field of an entry of a package-level table of records (layouts[e].offset)
 				if x.Op == token.MUL {
 					if fa, ok := x.X.(*ssa.FieldAddr); ok {
@@ -200,9 +210,22 @@ func (pe *peval) run(fn *ssa.Function, args []aval, depth int) []poutcome {
 						}
 						live = append(live, o)
 					}
-					if len(live) == 1 && !live[0].noRes {
+					setTuple := func(env map[ssa.Value]aval, o poutcome) {
+						if len(o.all) < 2 || x.Referrers() == nil {
+							return
+						}
+						for _, r := range *x.Referrers() {
+							if ex, ok := r.(*ssa.Extract); ok && ex.Index < len(o.all) && o.all[ex.Index].known {
+								env[ex] = o.all[ex.Index]
+							}
+						}
+					}
+					if len(live) == 1 && (!live[0].noRes || len(live[0].all) > 1) {
 						fr.guards = append(fr.guards, live[0].guards...)
-						fr.env[x] = live[0].res
+						if !live[0].noRes {
+							fr.env[x] = live[0].res
+						}
+						setTuple(fr.env, live[0])
 						continue
 					}
 					if len(live) > 1 {
@@ -217,6 +240,7 @@ func (pe *peval) run(fn *ssa.Function, args []aval, depth int) []poutcome {
 							if !o.noRes {
 								nf.env[x] = o.res
 							}
+							setTuple(nf.env, o)
 							walkAt(b, from, nf, visited, next)
 						}
 						return
@@ -243,6 +267,9 @@ func (pe *peval) run(fn *ssa.Function, args []aval, depth int) []poutcome {
 func (pe *peval) finish(b *ssa.BasicBlock, rest []ssa.Instruction, env map[ssa.Value]aval, guards []pguard, out *[]poutcome, cont func(*ssa.BasicBlock, map[ssa.Value]aval, []pguard)) {
 	val := func(v ssa.Value) aval {
 		if k, ok := constIntVal(v); ok {
+			return aval{known: true, k: k}
+		}
+		if k, ok := constBoolVal(v); ok {
 			return aval{known: true, k: k}
 		}
 		if a, ok := env[v]; ok {
@@ -282,6 +309,11 @@ func (pe *peval) finish(b *ssa.BasicBlock, rest []ssa.Instruction, env map[ssa.V
 			if !o.res.known {
 				o.noRes = true
 			}
+			if len(t.Results) > 1 {
+				for _, rr := range t.Results {
+					o.all = append(o.all, val(rr))
+				}
+			}
 		}
 		*out = append(*out, o)
 	case *ssa.Panic:
@@ -291,6 +323,15 @@ func (pe *peval) finish(b *ssa.BasicBlock, rest []ssa.Instruction, env map[ssa.V
 	case *ssa.If:
 		bo, _ := t.Cond.(*ssa.BinOp)
 		if bo == nil {
+			// a boolean whose value is known on this path (the ok of a helper's tuple)
+			if a := val(t.Cond); a.isConst() {
+				taken := 1
+				if a.k != 0 {
+					taken = 0
+				}
+				cont(b.Succs[taken], env, guards)
+				return
+			}
 			// an opaque condition: both ways
 			for _, s := range b.Succs {
 				pe.paths++
@@ -554,4 +595,16 @@ func storedOutsideInit(g *ssa.Global, init *ssa.Function) bool {
 		}
 	}
 	return false
+}
+
+// constBoolVal: a boolean constant as 0 or 1.
+func constBoolVal(v ssa.Value) (int64, bool) {
+	k, ok := v.(*ssa.Const)
+	if !ok || k.Value == nil || k.Value.Kind() != constant.Bool {
+		return 0, false
+	}
+	if constant.BoolVal(k.Value) {
+		return 1, true
+	}
+	return 0, true
 }
